@@ -24,7 +24,8 @@ DS_PRESERVING = ["add_classif", "add_segm", "partly_nan", "extra_attr", "right_w
 IN_BREAKING = ["img_missing", "img_empty", "img_garbage", "img_directory", "img_truncated", "nodata_float",
                "mask_garbage", "mask_wrong_size", "classif_wrong_size", "segm_garbage", "disp_reversed",
                "grid_one_band", "grid_three_bands", "grid_wrong_size", "grid_min_gt_max", "right_grid_with_left_ints",
-               "right_list", "left_disp_missing", "right_img_wrong_size", "right_grid_three_bands"]
+               "right_list", "left_disp_missing", "right_img_wrong_size", "right_grid_three_bands", "mask_empty_string",
+               "classif_empty_string", "segm_empty_string"]
 IN_PRESERVING = ["nodata_nan_str", "nodata_nan_float", "nodata_int", "extras_null", "classif_ok", "segm_ok",
                  "mask_ok"]
 # fault-then-repair pairs: a path is named while nothing readable is there, later the same path holds a good file
@@ -220,6 +221,8 @@ def apply_in_op(op, inp, w, tmp, uid):
         inp["right"]["disp"] = p("rgrid.tif")
     elif name == "right_list":
         inp["right"]["disp"] = [-2, 2]
+    elif name in ("mask_empty_string", "classif_empty_string", "segm_empty_string"):
+        inp[side][name.split("_")[0]] = ""  # not a readable raster, and not the documented null either
     elif name == "right_img_wrong_size":
         bands = w["bands"]
         files.write_raster(p("right_ws.tif"), np.ones((bands, rows, cols + 2), dtype=np.float32),
